@@ -513,6 +513,7 @@ fn cmd_server(args: &[String], seed: u64, n: u64, out: &str, summary: &str) {
                 "fair" => gen_fair(&mut rr, sid, false),
                 "fairtrans" => gen_fair(&mut rr, sid, true),
                 "fairmixed" => gen_fair_mixed(&mut rr, sid),
+                "fairwide" => gen_fair_wide(&mut rr, sid),
                 o => panic!("unknown mode {o}"),
             });
         }
